@@ -16,14 +16,14 @@ THEOREMS = ["Mpir.AliasMem.ofInts_ok",
             "Mpir.AliasMem.mod_ptr_spec", "Mpir.AliasMem.divexact_ptr_spec", "Mpir.AliasMem.div3_alias",
             "Mpir.AliasMem.mul_2exp_ptr_spec", "Mpir.AliasMem.tdiv_q_2exp_ptr_spec",
             "Mpir.AliasMem.mpz_and_ptr_spec", "Mpir.AliasMem.mpz_xor_ptr_spec", "Mpir.AliasMem.logic_ptr_spec", "Mpir.AliasMem.mpz_com_ptr_spec",
-            "Mpir.AliasMem.mpz_neg_ptr_spec", "Mpir.AliasMem.mpz_abs_ptr_spec", "Mpir.AliasMem.mpz_set_ptr_spec",
+            "Mpir.AliasMem.sqrtrem_ptr_spec", "Mpir.AliasMem.mpz_neg_ptr_spec", "Mpir.AliasMem.mpz_abs_ptr_spec", "Mpir.AliasMem.mpz_set_ptr_spec",
             "Mpir.Mpf.mpf_neg_alias", "Mpir.Mpf.mpf_abs_alias", "Mpir.Mpf.mpf_add_alias", "Mpir.Mpf.mpf_sub_alias",
             "Mpir.Mpf.mpf_add_ui_alias", "Mpir.Mpf.mpf_sub_ui_alias", "Mpir.Mpf.mpf_ui_sub_alias"]
 PINS = [("mpz/tdiv_qr.c", None), ("mpz/tdiv_q.c", None), ("mpz/tdiv_r.c", None),
         ("mpz/fdiv_qr.c", None), ("mpz/cdiv_qr.c", None), ("mpz/fdiv_q.c", None), ("mpz/cdiv_q.c", None),
         ("mpz/fdiv_r.c", None), ("mpz/cdiv_r.c", None), ("mpz/mod.c", None), ("mpz/divexact.c", None),
         ("mpz/mul_2exp.c", None), ("mpz/tdiv_q_2exp.c", None),
-        ("mpz/neg.c", None), ("mpz/abs.c", None), ("mpz/and.c", None), ("mpz/ior.c", None), ("mpz/xor.c", None), ("mpz/com.c", None),
+        ("mpz/sqrtrem.c", None), ("mpz/neg.c", None), ("mpz/abs.c", None), ("mpz/and.c", None), ("mpz/ior.c", None), ("mpz/xor.c", None), ("mpz/com.c", None),
         ("mpf/neg.c", None), ("mpf/abs.c", None), ("mpf/add.c", None), ("mpf/sub.c", None), ("mpf/add_ui.c", None),
         ("mpf/sub_ui.c", None), ("mpf/ui_sub.c", None),
         ("mpz/realloc.c", None), ("gmp-impl.h", "MPZ_REALLOC"), ("gmp-impl.h", "MPZ_TMP_INIT"),
@@ -142,3 +142,19 @@ def gen_ops(rng, tier, ctx=None):
                 v = [bitval(rng.choice([0, 1, 1, 2, 3, big])) for _ in range(4)]
                 yield "alias_com %x %x 0 0 %s" % (w, a, " ".join(hx(x) for x in v))
                 yield "alias_%s %x %x 0 0 %s" % (rng.choice(["neg", "abs", "set"]), w, a, " ".join(hx(x) for x in v))
+    # mpz_sqrtrem: every (root, rem, op) with root != rem; perfect squares (remainder 0), squares minus one (largest remainder),
+    # odd / even limb counts, outputs that must grow, a negative operand now and then
+    for r in range(4):
+        for m in range(4):
+            if r == m: continue
+            for o in range(4):
+                for _ in range(reps * 3):
+                    v = [abs(x) if rng.random() < 0.9 else x for x in _values(rng, big)]
+                    k = rng.randrange(5)
+                    t = _mag(rng, rng.choice([1, 1, 2, 3, big // 2 + 1]))
+                    if k == 0: v[o] = t * t
+                    elif k == 1: v[o] = t * t - 1
+                    elif k == 2: v[o] = t * t + 2 * t
+                    elif k == 3: v[o] = _mag(rng, rng.choice([1, 2, 3, 4, big]))
+                    if rng.random() < 0.03: v[o] = -abs(v[o]) - 1
+                    yield "alias_sqrtrem %x %x %x 0 %s" % (r, m, o, " ".join(hx(x) for x in v))
